@@ -259,3 +259,37 @@ Proof.
       apply Rmult_le_compat_l; lra.
 Qed.
 End Admissible.
+
+(* ---- CJ state coded in rare(): jump conditions across the detonation front, sonic condition, and the
+   gamma-law sound speed of the Taylor wave (used by C02 / C03) ---- *)
+Lemma mader_cj_state_proof : forall p_cj d_cj gam, 0 < p_cj -> 0 < d_cj -> 1 < gam ->
+  (* mass *)     rho_0 p_cj d_cj gam * d_cj = rho_cj p_cj d_cj gam * (d_cj - u_cj d_cj gam) /\
+  (* momentum *) p_cj = rho_0 p_cj d_cj gam * d_cj * u_cj d_cj gam /\
+  (* sonic *)    u_cj d_cj gam + c_cj d_cj gam = d_cj /\
+  (* c^2 = gamma p / rho at CJ *) c_cj d_cj gam ^ 2 = gam * p_cj / rho_cj p_cj d_cj gam.
+Proof.
+  intros p_cj d_cj gam Hp Hd Hg. unfold rho_cj, rho_0, u_cj, c_cj, gamp1.
+  split; [ field; split; lra | split; [ field; split; lra | split; [ field; lra | field; repeat split; lra ] ] ].
+Qed.
+
+Lemma mader_fan_sound_speed_proof : forall t p_cj d_cj gam y, 0 < p_cj -> 0 < d_cj -> 1 < gam -> 0 < fan_arg t d_cj gam y ->
+  fan_c t d_cj gam y ^ 2 = gam * fan_p t p_cj d_cj gam y / fan_rho t p_cj d_cj gam y /\
+  fan_p t p_cj d_cj gam y / Rpower (fan_rho t p_cj d_cj gam y) gam = p_cj / Rpower (rho_cj p_cj d_cj gam) gam.
+Proof.
+  intros t p_cj d_cj gam y Hp Hd Hg Ha.
+  destruct (mader_cj_state_proof p_cj d_cj gam Hp Hd Hg) as (_ & _ & _ & Hc).
+  assert (Hr : 0 < rho_cj p_cj d_cj gam).
+  { unfold rho_cj, rho_0, gamp1. apply Rdiv_lt_0_compat; [ | lra ]. apply Rmult_lt_0_compat; [ | lra ].
+    apply Rdiv_lt_0_compat; [ apply Rmult_lt_0_compat; lra | nra ]. }
+  unfold fan_c, fan_p, fan_rho, bexp, dexp, gamm1. set (A := fan_arg t d_cj gam y) in *.
+  assert (HB : Rpower A (2 * gam / (gam - 1)) = Rpower A (2 / (gam - 1)) * (A * A)).
+  { replace (2 * gam / (gam - 1)) with (2 / (gam - 1) + 1 + 1) by (field; lra). rewrite !Rpower_plus, Rpower_1 by exact Ha. ring. }
+  assert (HP : 0 < Rpower A (2 / (gam - 1))) by (unfold Rpower; apply exp_pos).
+  split.
+  - rewrite HB. replace ((c_cj d_cj gam * A) ^ 2) with (c_cj d_cj gam ^ 2 * (A * A)) by ring. rewrite Hc. field. split; lra.
+  - rewrite <- Rpower_mult_distr by assumption. rewrite Rpower_mult.
+    replace (2 / (gam - 1) * gam) with (2 * gam / (gam - 1)) by (field; lra).
+    assert (0 < Rpower A (2 * gam / (gam - 1))) by (unfold Rpower; apply exp_pos).
+    assert (0 < Rpower (rho_cj p_cj d_cj gam) gam) by (unfold Rpower; apply exp_pos).
+    field. split; lra.
+Qed.
